@@ -35,7 +35,7 @@ ASSUMPTIONS = [
     "portfolio-relative cells of open_positions (weights, row-numbered formulas) are excluded from the asset-subset relation",
 ]
 PROBES = ["reference_failed", "history_crashed_run", "history_io_faulted_run", "history_input_faulted_run", "history_left_torn_tmp", "stale_same_name_report_replaced",
-          "order_permutation_changed_bytes", "subset_two_assets_share_row_numbers", "subset_with_window", "host_jump_fired", "multi_asset_case", "crash_point_sweep", "history_reports_edited_by_user"]
+          "order_permutation_changed_bytes", "subset_two_assets_share_row_numbers", "subset_with_window", "host_jump_fired", "multi_asset_case", "crash_point_sweep", "history_reports_edited_by_user", "history_interrupted_run"]
 
 
 def make_case(seed, facts, index=0):
@@ -71,6 +71,7 @@ def _make_relation(rng, kind, base, facts):
     if kind == "host":
         rel["host"] = gen.gen_host(rng, {"clock": rng.random() < 0.8, "env": rng.random() < 0.8, "hash": rng.random() < 0.9})
         rel["host"]["profiler"] = False
+        rel["host"]["extra_env"] = gen.gen_extra_env(rng, facts[base["opts"]["country"]])
         rel["path_style"] = rng.choice(["rel", "abs", "dot"])
         rel["files_in"] = rng.choice(["", "inputs/", "cfg dir/"])
         rel["prefix"] = rng.choice([None, None, "p2_", ""])
@@ -81,7 +82,7 @@ def _make_relation(rng, kind, base, facts):
     elif kind == "history":
         runs = []
         for _ in range(rng.choice([1, 1, 2, 3])):
-            h = {"mode": rng.choice(["clean", "clean", "crash", "crash", "io_fault", "input_fault"])}
+            h = {"mode": rng.choice(["clean", "clean", "crash", "crash", "io_fault", "input_fault", "interrupt"])}
             k = rng.random()
             if k < 0.45:
                 h["world"] = "same"
@@ -111,7 +112,7 @@ def _make_relation(rng, kind, base, facts):
                 h["opts"] = o
             if h["mode"] == "clean" and rng.random() < 0.4:
                 h["edit_reports"] = rng.randint(0, 2**31)  # the user opens the reports of that run and types numbers into cells
-            if h["mode"] == "crash":
+            if h["mode"] in ("crash", "interrupt"):
                 h["crash_at"] = rng.randint(1, 120)
             elif h["mode"] == "io_fault":
                 h["io_fault"] = dict(rng.choice([f for f in IO_FAULTS if f["cls"] in ("output_tmp", "output", "log")]))
@@ -315,7 +316,7 @@ def exec_case(case, facts, src=None):
                     ho = dict(h["opts"])
                     ho["outdir"] = opts.get("outdir")
                     cfg, ods = W.materialize(hw)
-                    io_faults, crash_at = None, None
+                    io_faults, crash_at, interrupt_at = None, None, None
                     if h["mode"] == "input_fault":
                         allf = faults.enumerate_faults(hw, ho, facts) + faults.enumerate_oddities(hw, ho, facts)
                         cfg, ods, ho = faults.apply_fault(hw, ho, allf[h["fault_pick"] % len(allf)])
@@ -324,14 +325,19 @@ def exec_case(case, facts, src=None):
                         io_faults = [h["io_fault"]]
                     elif h["mode"] == "crash":
                         crash_at = h["crash_at"]
+                    elif h["mode"] == "interrupt":
+                        interrupt_at = h["crash_at"]
                     sub = opts.get("files_in", "")
                     hf = {"config": "%sh%d.ini" % (sub, i), "input": "%sh%d.ods" % (sub, i)}
                     w1.put(hf["config"], cfg)
                     w1.put(hf["input"], ods)
-                    hr = runner.run(w1, hf, ho, host=dict(gen.BASE_HOST, epoch_ns=gen.BASE_HOST["epoch_ns"] - (10 - i) * 86400 * 10**9, hashseed=i + 1), faults=io_faults, crash_at=crash_at, src=src)
+                    hr = runner.run(w1, hf, ho, host=dict(gen.BASE_HOST, epoch_ns=gen.BASE_HOST["epoch_ns"] - (10 - i) * 86400 * 10**9, hashseed=i + 1), faults=io_faults, crash_at=crash_at, interrupt_at=interrupt_at, src=src)
                     stats["runs"] += 1
                     hc = hr.get("child") or {}
                     m = h["mode"]
+                    if m == "interrupt" and hc.get("interrupted"):
+                        stats["probe:history_interrupted_run"] = 1
+                        m = "interrupted"
                     if m == "crash" and hc.get("crashed"):
                         stats["probe:history_crashed_run"] = 1
                         m = "crashed"
